@@ -317,21 +317,17 @@ func (fr *frame) recordBind(key string, seq int, res []string, sig *types.Signat
 	}
 }
 
-// frameObligations: for every heap class, every address that is not in the modifies set and belongs to an object
-// allocated before the call holds the same value at return as at entry.
-func (fr *frame) frameObligations(items []modItem, st0, final *State, rg string, pos string) {
+// frameFormulas: per heap class, "every address outside the modifies set that belongs to an object allocated before
+// the call holds the same value in state `now` as at entry". ok=false when the clause says `modifies heap`.
+func (fr *frame) frameFormulas(items []modItem, st0, now *State, onlyChanged bool) (map[string]string, bool) {
 	vc := fr.vc
 	env := fr.specEnvAt(st0)
-	type loc struct {
-		addr string
-		t    types.Type
-	}
 	perClass := map[string][]string{} // class -> exclusion conditions over bound address a
 	wholeClass := map[string]bool{}
 	for _, it := range items {
 		switch it.kind {
 		case "heap":
-			return
+			return nil, false
 		case "class":
 			t := env.resolveType(it.typ)
 			if t == nil {
@@ -384,16 +380,33 @@ func (fr *frame) frameObligations(items []modItem, st0, final *State, rg string,
 		classes = append(classes, c)
 	}
 	sort.Strings(classes)
+	out := map[string]string{}
 	for _, c := range classes {
 		if wholeClass[c] {
 			continue
 		}
-		h0, h1 := vc.heapOf(st0, c), vc.heapOf(final, c)
-		if h0 == h1 {
+		h0, h1 := vc.heapOf(st0, c), vc.heapOf(now, c)
+		if h0 == h1 && onlyChanged {
 			continue
 		}
 		excl := or(perClass[c]...)
-		f := fmt.Sprintf("(forall ((a Int)) (=> (and (<= (base a) %s) (not %s)) (= (select %s a) (select %s a))))", st0.hw, excl, h1, h0)
-		vc.oblige("frame", strings.TrimPrefix(c, "H_"), rg, f, "only the locations of the modifies clause change (class "+c+")", fr.props, pos)
+		out[c] = fmt.Sprintf("(forall ((a Int)) (! (=> (and (<= (base a) %s) (not %s)) (= (select %s a) (select %s a))) :pattern ((select %s a))))", st0.hw, excl, h1, h0, h1)
+	}
+	return out, true
+}
+
+func (fr *frame) frameObligations(items []modItem, st0, final *State, rg string, pos string) {
+	vc := fr.vc
+	fs, ok := fr.frameFormulas(items, st0, final, true)
+	if !ok {
+		return
+	}
+	var classes []string
+	for c := range fs {
+		classes = append(classes, c)
+	}
+	sort.Strings(classes)
+	for _, c := range classes {
+		vc.oblige("frame", strings.TrimPrefix(c, "H_"), rg, fs[c], "only the locations of the modifies clause change (class "+c+")", fr.props, pos)
 	}
 }
